@@ -183,6 +183,19 @@ pub fn config_grid() -> Vec<Cfg> {
             ("sst-minimum-file-size", "4096"),
         ],
     ));
+    // L: nothing is ever collected (versions = 100) and every 5 KiB entry gets an output file of
+    // its own: merges write many files
+    rows.push(Cfg::new(
+        "L-keepall",
+        &[
+            ("memtable-size-bytes", "0"),
+            ("l0-mandatory-compaction-threshold-files", "2"),
+            ("l0-write-stall-threshold-files", "12"),
+            ("gc-policy", "versions = 100"),
+            ("sst-target-file-size", "4096"),
+            ("sst-minimum-file-size", "4096"),
+        ],
+    ));
     // J: level 0 stalls and becomes mandatory by bytes, not by file count
     rows.push(Cfg::new(
         "J-stallbytes",
